@@ -231,7 +231,8 @@ def build(spec: Dict) -> Tuple[Dict, Dict]:
             if dns_ip:
                 n["dns_server"] = dns_ip
             if h.get("off"):
-                n["operating_state"] = "OFF"
+                # True = declared OFF; a string names another declared state that is not ON (BOOTING, SHUTTING_DOWN)
+                n["operating_state"] = h["off"] if isinstance(h["off"], str) else "OFF"
             services, apps = [], []
             for t in h["sw"]:
                 if t == "db":
